@@ -390,7 +390,39 @@ def rule_r5(p, res):
             {"fast_path_guard": conds})
 
 
-RULES = [rule_r1, rule_r2, rule_r3, rule_r4, rule_r5]
+def rule_r6(p, res):
+    r = res.rule("C13.R6", "slice arithmetic: patch bounds are clipped to the image extent; write-back uses the same centre + offset as extraction")
+    sl = p.func("menpo.image.patches.extract_patches_with_slice")
+    r.instance(sl)
+    d = Defs(sl.node)
+    px = sl.params[0]
+    pb = d.single("pixel_bounds")
+    ok = isinstance(pb, ast.Call) and (dotted(pb.func) or "") == "np.clip" and len(pb.args) == 3
+    need(ok, "C13.R6: clipping of the patch bounds not recognised")
+    lo, hi = pb.args[1], pb.args[2]
+    from ..astutil import expand
+    r.check(norm(lo) == "[0, 0]" and norm(expand(hi, d)) in ("[%s.shape[1:]]" % px, "%s.shape[1:]" % px, "[np.array(%s.shape[1:])]" % px), sl, pb,
+            "patch bounds are slice bounds: they must be clipped to [0, image extent] (found [%s, %s]); clipping the upper bound to extent - 1 never copies the last row / column"
+            % (norm(lo), norm(expand(hi, d))[:50]), {"clip": [norm(lo), norm(expand(hi, d))[:50]]})
+    bnd = d.single("bounds")
+    r.check(bnd is not None and norm(bnd) == "np.round(patch_centers[:, None, None, :] + offsets[:, None, :] + corners).astype(int)", sl, sl.node,
+            "patch bounds = round(centre + offset + corners)")
+    r.check(norm(d.single("patch_bounds")) == "pixel_bounds - bounds", sl, sl.node, "the offset inside the patch is the amount that was clipped away")
+    sp = p.func("menpo.image.patches.set_patches")
+    r.instance(sp)
+    ds = Defs(sp.node)
+    pv = ds.single("p")
+    r.check(pv is not None and isinstance(pv, ast.BinOp) and isinstance(pv.op, ast.Add) and {norm(pv.left), norm(pv.right)} == {"point", "offset[0]"}, sp, sp.node,
+            "write-back must place a patch at centre + offset, the position it was extracted from (found `%s`)" % (norm(pv) if pv is not None else None), {"write_back_centre": norm(pv) if pv is not None else None})
+    s = norm(sp.node)
+    r.check("pixels[:, p_r - l_r:p_r + h_r, p_c - l_c:p_c + h_c] = patch" in s and "patch = patches_with_offsets[offset_index]" in s, sp, sp.node, "a patch covers [centre - floor(h/2), centre + ceil(h/2)) on both axes, all channels")
+    sa = p.func("menpo.image.patches.extract_patches_by_sampling")
+    r.instance(sa)
+    s2 = norm(sa.node)
+    r.check("points_to_sample = patch[:, None, :] + patch_centers" in s2 and "points_to_sample = points_to_sample[:, :, None, :] + offsets" in s2, sa, sa.node, "sampling grid = centred patch + centre + offset")
+
+
+RULES = [rule_r1, rule_r2, rule_r3, rule_r4, rule_r5, rule_r6]
 
 _CROP_FIXED_GUARD = "if not (constrain_to_boundary or (all_max_bounded and all_min_bounded)):"
 WITNESSES = [
@@ -409,6 +441,9 @@ WITNESSES = [
     Witness("C13.W7", "menpo/image/base.py", "Image.crop", "Translation(min_bounded)", "Translation(min_indices)", rule="C13.R2", construct="Image.crop"),
     Witness("C13.W8", "menpo/image/base.py", "Image.extract_patches", "if order == 0 and mode == 'constant':", "if mode == 'constant':",
             rule="C13.R5", construct="Image.extract_patches"),
+    Witness("C13.W9", "menpo/image/patches.py", "extract_patches_with_slice", "np.clip(bounds, [0, 0], [pixels.shape[1:]])", "np.clip(bounds, [0, 0], [np.array(pixels.shape[1:]) - 1])",
+            rule="C13.R6", construct="extract_patches_with_slice", note="seeded change R2-C13-A"),
+    Witness("C13.W10", "menpo/image/patches.py", "set_patches", "p = point + offset[0]", "p = point - offset[0]", rule="C13.R6", construct="set_patches", note="seeded change R2-C13-B"),
     Witness("C13.T1", "menpo/image/base.py", "Image.crop",
             "if not (constrain_to_boundary or (all_max_bounded and all_min_bounded)):",
             "if not constrain_to_boundary and (not (all_max_bounded and all_min_bounded)):", kind="T"),
